@@ -1,6 +1,8 @@
 import RbV.Lemmas.C15b
 import RbV.Lemmas.C15c
 import RbV.Lemmas.C15Gen
+import RbV.Thm.GenSrcProbs
+import RbV.Thm.GenSrcFastExp
 /-!
 # C15 — log-space probability arithmetic agrees with linear-space arithmetic (real-number theorems, PARTIAL)
 
@@ -298,5 +300,154 @@ example : ∃ r, lnSumExp exp [some 0, none] = some r := by
 example : checked 0.3 = some 0.3 ∧ checked 1.5 = none ∧ checked (-0.1) = none := by
   refine ⟨(checked_accepts_iff _).mpr ⟨by norm_num, by norm_num⟩, (checked_rejects_iff _).mpr (Or.inr (by norm_num)),
     (checked_rejects_iff _).mpr (Or.inl (by norm_num))⟩
+
+/-! ### the translated source text (`RbV/Gen/SrcProbs.lean`, regenerated from `src/stats/probs/mod.rs` on every run)
+
+`f64` is abstract in the generated definitions; they are read at `xrOps E`: `ℝ ∪ {±∞, NaN}` with exact arithmetic and
+`fastexp = E` (`RbV/Lemmas/C15Src.lean`); `emb a` is the model value `a : LP` as such an `f64`.  Statements are at the level
+the property determines; the branch-by-branch equalities with `lnAddExp`, `ln1mExp`, `lnSubExp`, `lnCumsumExp` are the soft
+module `RbV/Thm/GenSrcProbsModel.lean`.  `dropTol = 10⁻¹⁵`, `dropGap = −37`. -/
+
+/-- the translated `ln_add_exp` returns a finite-or-`ln 0` value that is the model's `lnAddExp`, or — only when the
+operands are more than 37 apart in log space — the larger operand -/
+theorem ln_add_exp_source_near_model (E : ℝ → ℝ) (hE : GenSrcProbs.PosOn E) (a b : LP) :
+    ∃ r : LP, Gen.SrcProbs.ln_add_exp (xrOps E) (emb a) (emb b) = emb r ∧ AddNear E a b r :=
+  GenSrcProbs.ln_add_exp_near_model E hE a b
+
+/-- … hence `|exp(result) − (eᵃ + eᵇ)| ≤ δ · min(eᵃ, eᵇ) + 10⁻¹⁵ · max(eᵃ, eᵇ)` -/
+theorem ln_add_exp_source_error (E : ℝ → ℝ) (δ : ℝ) (h : ApproxExp E δ) (hδ : δ < 1) (a b r : LP)
+    (hr : Gen.SrcProbs.ln_add_exp (xrOps E) (emb a) (emb b) = emb r) :
+    |lin r - (lin a + lin b)| ≤ δ * min (lin a) (lin b) + dropTol * max (lin a) (lin b) :=
+  GenSrcProbs.ln_add_exp_error E δ h hδ a b r hr
+
+/-- … within 0.5 % of the largest operand as soon as `δ ≤ 0.004` -/
+theorem ln_add_exp_source_half_percent (E : ℝ → ℝ) (δ : ℝ) (h : ApproxExp E δ) (hδ : δ ≤ 0.004) (a b r : LP)
+    (hr : Gen.SrcProbs.ln_add_exp (xrOps E) (emb a) (emb b) = emb r) :
+    |lin r - (lin a + lin b)| ≤ 0.005 * max (lin a) (lin b) := by
+  have h1 := GenSrcProbs.ln_add_exp_error E δ h (by linarith) a b r hr
+  have hm : 0 ≤ max (lin a) (lin b) := le_trans (lin_nonneg a) (le_max_left _ _)
+  have h2 : δ * min (lin a) (lin b) ≤ 0.004 * max (lin a) (lin b) :=
+    mul_le_mul hδ (le_trans (min_le_left _ _) (le_max_left _ _)) (le_min (lin_nonneg a) (lin_nonneg b)) (by norm_num)
+  have h3 : dropTol * max (lin a) (lin b) ≤ 0.001 * max (lin a) (lin b) :=
+    mul_le_mul_of_nonneg_right (by unfold dropTol; norm_num) hm
+  linarith
+
+/-- with the exact exponential the translated `ln_add_exp` is exact up to `10⁻¹⁵` of the larger operand (exactly exact
+on the pinned text: soft module) -/
+theorem ln_add_exp_source_exact (a b r : LP)
+    (hr : Gen.SrcProbs.ln_add_exp (xrOps exp) (emb a) (emb b) = emb r) :
+    |lin r - (lin a + lin b)| ≤ dropTol * max (lin a) (lin b) := by
+  have := GenSrcProbs.ln_add_exp_error exp 0 approxExp_exp (by norm_num) a b r hr
+  simpa using this
+
+/-- the translated `ln_sum_exp` **is** the model's `lnSumExp` (no panic; whichever maximal entry is excluded) -/
+theorem ln_sum_exp_source_eq_model (E : ℝ → ℝ) (hE : GenSrcProbs.PosOn E) (l : List LP) :
+    Gen.SrcProbs.ln_sum_exp (xrOps E) (l.map emb) = Rs.Res.ok (emb (lnSumExp E l)) :=
+  GenSrcProbs.ln_sum_exp_eq_model E hE l
+
+theorem ln_sum_exp_source_error (E : ℝ → ℝ) (δ : ℝ) (h : ApproxExp E δ) (hδ : δ < 1) (l : List LP) :
+    ∃ r : LP, Gen.SrcProbs.ln_sum_exp (xrOps E) (l.map emb) = Rs.Res.ok (emb r) ∧
+      |lin r - (l.map lin).sum| ≤ δ * (l.map lin).sum :=
+  GenSrcProbs.ln_sum_exp_error E δ h hδ l
+
+/-- the translated `ln_cumsum_exp` (the `ScanIter` consumed to its end) yields one entry per input, each step an
+admissible addition by the translated `ln_add_exp` -/
+theorem ln_cumsum_exp_source_is_scan (E : ℝ → ℝ) (hE : GenSrcProbs.PosOn E) (l : List LP) :
+    ∃ rs : List LP, Gen.SrcProbs.ln_cumsum_exp (xrOps E) (l.map emb) = rs.map emb ∧ ScanNear E none l rs ∧
+      rs.length = l.length :=
+  GenSrcProbs.ln_cumsum_exp_eq_scan E hE l
+
+/-- entry `k` is within `(δ + 2(k+1)·10⁻¹⁵) ·` prefix sum of the prefix sum -/
+theorem ln_cumsum_exp_source_error (E : ℝ → ℝ) (δ : ℝ) (h : ApproxExp E δ) (hδ : δ < 1) (l rs : List LP)
+    (hrs : Gen.SrcProbs.ln_cumsum_exp (xrOps E) (l.map emb) = rs.map emb) (k : ℕ) (r : LP) (hr : rs[k]? = some r)
+    (hk : δ + 2 * (k + 1 : ℕ) * dropTol ≤ 1) :
+    |lin r - ((l.take (k + 1)).map lin).sum| ≤ (δ + 2 * (k + 1 : ℕ) * dropTol) * ((l.take (k + 1)).map lin).sum :=
+  GenSrcProbs.ln_cumsum_exp_error E δ h hδ l rs hrs k r hr hk
+
+/-- the translated `ln_one_minus_exp` (through the translated `ln_1m_exp`, whichever branch, switch point and
+exponential the text uses in the `ln_1p` branch): no panic for `p ≤ 1`, error `≤ δ · p` -/
+theorem ln_one_minus_exp_source_error (E : ℝ → ℝ) (δ : ℝ) (h : ApproxExp E δ) (hδ : δ ≤ 1 / 2) (a : LP) (ha : lin a ≤ 1) :
+    ∃ r : LP, Gen.SrcProbs.ln_one_minus_exp (xrOps E) (emb a) = Rs.Res.ok (emb r) ∧ |lin r - (1 - lin a)| ≤ δ * lin a :=
+  GenSrcProbs.ln_one_minus_exp_spec E δ h hδ a ha
+
+theorem ln_one_minus_exp_source_exact (a : LP) (ha : lin a ≤ 1) :
+    ∃ r : LP, Gen.SrcProbs.ln_one_minus_exp (xrOps exp) (emb a) = Rs.Res.ok (emb r) ∧ lin r = 1 - lin a := by
+  obtain ⟨r, h1, h2⟩ := GenSrcProbs.ln_one_minus_exp_spec exp 0 approxExp_exp (by norm_num) a ha
+  exact ⟨r, h1, by simpa [sub_eq_zero] using h2⟩
+
+/-- the translated `ln_sub_exp`: the `assert!(p0 >= p1)` holds, error `≤ δ · e^{p1}` (the `relative_eq!` shortcut is an
+equality test in the absence of rounding) -/
+theorem ln_sub_exp_source_error (E : ℝ → ℝ) (δ : ℝ) (h : ApproxExp E δ) (hδ : δ ≤ 1 / 2) (a b : LP) (hab : lin b ≤ lin a) :
+    ∃ r : LP, Gen.SrcProbs.ln_sub_exp (xrOps E) (emb a) (emb b) = Rs.Res.ok (emb r) ∧
+      |lin r - (lin a - lin b)| ≤ δ * lin b :=
+  GenSrcProbs.ln_sub_exp_spec E δ h hδ a b hab
+
+/-- the translated `Prob::checked` accepts exactly the finite numbers of `[0, 1]` (NaN and ±∞ are refused) -/
+theorem prob_checked_source_iff (E : ℝ → ℝ) (p v : XR) :
+    Gen.SrcProbs.checked (xrOps E) p = Except.ok v ↔ v = p ∧ ∃ x : ℝ, p = XR.fin x ∧ 0 ≤ x ∧ x ≤ 1 :=
+  GenSrcProbs.checked_iff E p v
+
+/-- the translated conversions: `Prob → PHREDProb → Prob` is exact -/
+theorem prob_phred_source_roundtrip (E : ℝ → ℝ) (p : ℝ) (hp : 0 < p) :
+    Gen.SrcProbs.prob_of_phred (xrOps E) (Gen.SrcProbs.phred_of_prob (xrOps E) (XR.fin p)) = XR.fin p :=
+  GenSrcProbs.prob_phred_roundtrip E p hp
+
+/-- `Prob → LogProb → Prob` has the relative error of `fastexp` -/
+theorem prob_logprob_source_roundtrip (E : ℝ → ℝ) (δ : ℝ) (h : ApproxExp E δ) (p : ℝ) (hp : 0 < p) (hp1 : p ≤ 1) :
+    ∃ q : ℝ, Gen.SrcProbs.prob_of_logprob (xrOps E) (Gen.SrcProbs.logprob_of_prob (xrOps E) (XR.fin p)) = XR.fin q ∧
+      |q - p| ≤ δ * p :=
+  GenSrcProbs.prob_logprob_roundtrip E δ h p hp hp1
+
+/-- `LogProb → PHREDProb → LogProb` is within `10⁻¹⁵` relative of the identity (the literals of the text) -/
+theorem logprob_phred_source_roundtrip (E : ℝ → ℝ) (x : ℝ) :
+    ∃ y : ℝ, Gen.SrcProbs.logprob_of_phred (xrOps E) (Gen.SrcProbs.phred_of_logprob (xrOps E) (XR.fin x)) = XR.fin y ∧
+      |y - x| ≤ 1 / 10 ^ 15 * |x| := by
+  obtain ⟨y, h1, h2⟩ := GenSrcProbs.logprob_phred_roundtrip E x
+  refine ⟨y, h1, ?_⟩
+  have h3 := phred_factors_inverse
+  have h4 : |((LOG_TO_PHRED_FACTOR * PHRED_TO_LOG_FACTOR : ℚ) : ℝ) - 1| < 1 / 10 ^ 15 := by
+    have := (Rat.cast_lt (K := ℝ)).mpr h3
+    push_cast at this ⊢
+    simpa using this
+  rw [h2, show x * ((LOG_TO_PHRED_FACTOR * PHRED_TO_LOG_FACTOR : ℚ) : ℝ) - x
+      = x * (((LOG_TO_PHRED_FACTOR * PHRED_TO_LOG_FACTOR : ℚ) : ℝ) - 1) by ring, abs_mul, mul_comm]
+  exact mul_le_mul_of_nonneg_right h4.le (abs_nonneg x)
+
+/-- the literals the conversions use are the ones `Gen/Scales.lean` extracts -/
+theorem source_factors_are_extracted (E : ℝ → ℝ) :
+    Gen.SrcProbs.PHRED_TO_LOG_FACTOR (xrOps E) = XR.fin (PHRED_TO_LOG_FACTOR : ℝ) ∧
+    Gen.SrcProbs.LOG_TO_PHRED_FACTOR (xrOps E) = XR.fin (LOG_TO_PHRED_FACTOR : ℝ) := ⟨rfl, rfl⟩
+
+/-! non-vacuity of the source theorems -/
+example : GenSrcProbs.PosOn exp := GenSrcProbs.posOn_exp
+example : ∃ r : LP, Gen.SrcProbs.ln_add_exp (xrOps exp) (emb (some 0)) (emb none) = emb r :=
+  ⟨some 0, by simp [Gen.SrcProbs.ln_add_exp, Gen.SrcProbs.ln_zero]⟩
+example : Gen.SrcProbs.checked (xrOps exp) XR.nan ≠ Except.ok XR.nan := by
+  intro h; obtain ⟨_, x, hx, _⟩ := (prob_checked_source_iff exp _ _).mp h; cases hx
+example : Gen.SrcProbs.checked (xrOps exp) (XR.fin 0.3) = Except.ok (XR.fin 0.3) :=
+  (prob_checked_source_iff exp _ _).mpr ⟨rfl, 0.3, rfl, by norm_num, by norm_num⟩
+example : lin (some (-1) : LP) ≤ lin (some 0) := by simp [lin]
+
+/-- the translated body of `FastExp::fastexp` (`RbV/Gen/SrcFastExp.lean`): for `MIN_VAL < x ≤ 0` it returns exactly
+`2^k · P(y)`, `k = ⌈ONEBYLOG2·x⌉`, `y = ONEBYLOG2·x − k`, `P` the polynomial over the extracted coefficients — the `i64`
+arithmetic does not overflow, the shifted exponent stays in its field and the assembled bit pattern decodes (IEEE-754
+binary64) to `2^k`.  (`ONEBYLOG2` is the 10-digit literal, not `1/ln 2`: the distance to `fastexpModel` is part of the
+measured `δ`.) -/
+theorem fastexp_source_eq_bit_trick (E : ℝ → ℝ) (x : ℝ) (hlo : decR Gen.Scales.minVal < x) (hhi : x ≤ 0) :
+    Gen.SrcFastExp.fastexp (xrOps E) (XR.fin x) =
+      Rs.Res.ok (XR.fin ((2 : ℝ) ^ ⌈decR Gen.Scales.oneByLog2 * x⌉ *
+        fastexpPolyGen (decR Gen.Scales.oneByLog2 * x - ⌈decR Gen.Scales.oneByLog2 * x⌉))) := by
+  obtain ⟨h1, h2, _, _⟩ := fastexp_exponent_field_in_range x hlo hhi
+  have ho : Gen.Scales.offsetF64 = 1023 := by decide
+  rw [ho] at h1 h2
+  exact GenSrcFastExp.fastexp_eq_model E x hlo hhi h1 h2 (by rw [decR_eq]; unfold Gen.Scales.oneByLog2; norm_num)
+
+/-- at and below `MIN_VAL` the text is the exact `exp`; `fastexp(−∞) = 0` (the value `xrOps` gives `fastexp` at `−∞`) -/
+theorem fastexp_source_below_cutoff (E : ℝ → ℝ) (x : ℝ) (h : x ≤ decR Gen.Scales.minVal) :
+    Gen.SrcFastExp.fastexp (xrOps E) (XR.fin x) = Rs.Res.ok (XR.fin (exp x)) ∧
+    Gen.SrcFastExp.fastexp (xrOps E) XR.ninf = Rs.Res.ok (XR.fin 0) :=
+  ⟨GenSrcFastExp.fastexp_below E x h, GenSrcFastExp.fastexp_ninf E⟩
+
+example : ∃ x : ℝ, decR Gen.Scales.minVal < x ∧ x ≤ 0 := ⟨0, by rw [decR_eq]; unfold Gen.Scales.minVal; norm_num, le_rfl⟩
 
 end RbV.Thm.C15
